@@ -525,9 +525,9 @@ PROPERTIES = {
                  "rendered to YAML and goes through serde_yml -> Def -> transform -> Ndl::build into a Sim with a recording registry; every second document takes one of the other public entry points instead (Ndl::from_str, Sim::nodes_from_ndl, Sim::with_ndl on a temporary file, Ndl::from_file), valid documents and mutants alike. Oracle = independent "
                  "reference elaborator: module set path -> software symbol (as seen by the registry), gate clusters per module, set of direct gate connections "
                  "with link latency / bitrate (read through both connection slots of every gate) must be equal, no more, no fewer. Then three single-point "
-                 "mutations per document out of 24 operators (dangling type / inherit / entry / link, unknown gate / submodule, index out of bounds, index 0 into a non-cluster, zero-sized "
+                 "mutations per document out of 25 operators (dangling type / inherit / entry / link, unknown gate / submodule, index out of bounds, index 0 into a non-cluster, zero-sized "
                  "gate or submodule cluster, unequal peers, inheritance and submodule cycles, malformed type clauses, generic without arguments, wrong arity, "
-                 "non-conforming argument, generic module or binding as argument, binding with arguments, deleted line, inserted garbage): never a panic; "
+                 "non-conforming argument, an argument whose submodule is another instantiation of the same generic than the bound's (Box(Y) for Box(X), structurally different; with a conforming control), generic module or binding as argument, binding with arguments, deleted line, inserted garbage): never a panic; "
                  "structural mutants must be rejected with a non-empty message and a kind other than Other. FromStr / Display round trips of FieldDef, TypClause, "
                  "ConnectionEndpointDef. Non-trivial = valid document with >= 3 modules and a connection that checked clean; distinct = hash of the text."),
         "assumptions": ["the YAML parser itself is part of the pipeline: a crash inside it counts"],
